@@ -6,7 +6,7 @@
    record whose digest names a cache object holding them -- exactly, or (text files, class [alias], P2)
    up to CR/LF bytes.  copy / move / untrack: Repo/Ext (Props/C19, C05) and the inventory oracle. *)
 From Coq Require Import List Bool NArith.
-From XV Require Import Base.Amap Base.Bytes Repo.Model Repo.Inv Repo.Restore Repo.Stamps Repo.Main Repo.Safe.
+From XV Require Import Base.Amap Base.Bytes Repo.Model Repo.Inv Repo.Restore Repo.Stamps Repo.Main Repo.Safe Repo.Fix Repo.FixProofs Repo.SafeFix.
 Import ListNotations.
 
 Theorem no_unsaved_data_destroyed r it p b :
@@ -28,6 +28,25 @@ Proof. exact (unforced_keeps_or_saves r it p b). Qed.
 (* the full statement (exact bytes, no class) is false of the faithful model: P2 *)
 Theorem exact_bytes_refuted : ~ unforced_exact_full.
 Proof. exact unforced_exact_refuted. Qed.
+
+(* the same for the commands with the repair switches of Repo/Fix.v (P44 / P42, P41, P49, P43; with all switches off
+   this is the model above: Props/C02.v model_with_switches_off), for EVERY value of the switches: the repository is
+   reached outside K_x fx (relink only while P41 is not repaired; Props/C02.v), the command is unforced -- a track with
+   an explicit method includes the recheck that ends it once P43 is repaired *)
+Theorem no_unsaved_data_destroyed_x fx r it p b :
+  reachable_x fx r -> K_item_x fx r it = false -> unforced_cmd it = true ->
+  ws_read (fs r) p = Some b ->
+  ws_read (fs (fst (do_item_x fx r it))) p = Some b \/
+  exists e x d b', find_path (recs (fst (do_item_x fx r it))) p = Some (e, x) /\ r_digest x = Some d /\
+                   obj_read (fs (fst (do_item_x fx r it))) (cache_addr p d) = Some b' /\
+                   (b' = b \/ alias_pair b b' = true).
+Proof. exact (unforced_keeps_or_saves_exact_x fx r it p b). Qed.
+
+Theorem no_unsaved_data_destroyed_modulo_line_breaks_x fx r it p b :
+  reachable_x fx r -> K_item_x fx r it = false -> unforced_cmd it = true ->
+  ws_read (fs r) p = Some b ->
+  ws_read (fs (fst (do_item_x fx r it))) p = Some b \/ saved (fst (do_item_x fx r it)) p b.
+Proof. exact (unforced_keeps_or_saves_x fx r it p b). Qed.
 
 Check no_unsaved_data_destroyed :
   forall r it p b, reachable_r r -> mon_item relink r it = false -> unforced_cmd it = true ->
@@ -55,3 +74,5 @@ Proof. split; [apply reachable_r_run; vm_compute; reflexivity|]. vm_compute. rep
 Print Assumptions no_unsaved_data_destroyed.
 Print Assumptions no_unsaved_data_destroyed_modulo_line_breaks.
 Print Assumptions exact_bytes_refuted.
+Print Assumptions no_unsaved_data_destroyed_x.
+Print Assumptions no_unsaved_data_destroyed_modulo_line_breaks_x.
